@@ -63,6 +63,16 @@ def build_graph(desc, directed=None):
     for name, ws in (desc.get('nw') or {}).items():
         for i, w in enumerate(ws):
             G.nodes[lab(i)][name] = w
+    if desc.get('decoy'):
+        # attributes the call does not name must be ignored: networkx's own default attribute name 'weight' (and a few others) on edges
+        # and nodes, with values far from 1
+        k = 0
+        for u, v, d in G.edges(data=True):
+            k += 1
+            d['weight'] = 0.05 + 3.1 * (k % 5)
+            d['rate'] = 7.0
+        for k, u in enumerate(G.nodes()):
+            G.nodes[u]['weight'] = 0.3 + 2.3 * (k % 3)
     return G, lab
 
 
@@ -186,7 +196,7 @@ def random_graph(r, nmin=1, nmax=12, kinds=None):
         g = nx.Graph(nx.configuration_model(degs, seed=r.randint(0, 10**9)))
         g.remove_edges_from(nx.selfloop_edges(g))
         edges = {tuple(sorted(e)) for e in g.edges()}
-    return {'n': n, 'edges': sorted([list(e) for e in edges]), 'kind': kind}
+    return {'n': n, 'edges': sorted([list(e) for e in edges]), 'kind': kind, 'decoy': r.random() < 0.3}
 
 
 def random_digraph(r, nmin=1, nmax=10):
